@@ -272,6 +272,23 @@ def _run(plan, run, violate, stats):
                 continue
             if compare(ref_snaps, k, ex.h.snap(s2), violate, 'save', 'right after LoadSolver'):
                 continue_and_compare(plan, run, ex, s2, k, ref_snaps, ref_rng, violate, stats, 'save')
+                # the same, unchanged restart file is read once more in the same process, after the first restored solver
+                # has moved on: what comes out is again the checkpointed state, not something shared with the first one
+                try:
+                    s3 = LoadSolver(path)
+                except Exception as e:
+                    violate('restore_failed_to_step', 'a second LoadSolver of the same file raised %s: %s' % (type(e).__name__, str(e)[:200]), path='save')
+                    continue
+                run.probe('c06.loaded_twice')
+                if compare(ref_snaps, k, ex.h.snap(s3), violate, 'save', 'right after a SECOND LoadSolver of the unchanged file', second_load=True) and k < N - 1:
+                    set_rng_state(ref_rng[k])
+                    try:
+                        ex.step(s3, owner=ex.tag + ':save2', j=k + 1)
+                        compare(ref_snaps, k + 1, ex.h.snap(s3), violate, 'save', 'second restored solver after one step', second_load=True)
+                    except (env.SimCrash, env.SimHang):
+                        raise
+                    except Exception as e:
+                        violate('restore_failed_to_step', 'second restored solver: Step raised %s: %s' % (type(e).__name__, str(e)[:200]), path='save')
             # original untouched by the restored one
             if k < N - 1:
                 set_rng_state(ref_rng[k])
